@@ -247,3 +247,27 @@ Definition line_spec (fmt : list Z) (cs : callsite) (msg : list Z) (L : Z) (ell 
 
 Definition fres_text (r : fres) : list Z := match r with FDone b => cstr b | FOob _ => [] end.
 Definition fres_oob (r : fres) : bool := match r with FDone _ => false | FOob _ => true end.
+
+(* ------------------------------------------------------------------ guard of the text theorem *)
+(* every '-' (padding in front) field that is wider than its text lies entirely inside the limit; [pos] = length of the
+   line so far.  (Outside this guard the formatter lays the field out for the room that is left - finding
+   C13-right-aligned-field-clamped.)  Fields beyond the limit do not matter. *)
+Definition item_ok (L : Z) (ralign : bool) (src : list Z) (w pos : Z) : bool :=
+  negb ralign || (w <=? zlen src) || (pos + w <=? L - 1) || (L - 1 <=? pos).
+
+Fixpoint ralign_ok (L : Z) (field : Z -> list Z) (f : list Z) (m : smode2) (pos : Z) : bool :=
+  match f with
+  | [] => match m with QLit => true | QDir ralign ds _ => item_ok L ralign [] (atoi_cutoff ds) pos end
+  | c :: f' =>
+    match m with
+    | QLit => if c =? 37 then ralign_ok L field f' (QDir false [] true) pos else ralign_ok L field f' QLit (pos + 1)
+    | QDir ralign ds dash_ok =>
+      if dash_ok && (c =? 45) then ralign_ok L field f' (QDir true ds false) pos
+      else if is_digit c then ralign_ok L field f' (QDir ralign (ds ++ [c]) false) pos
+      else item_ok L ralign (field c) (atoi_cutoff ds) pos &&
+           ralign_ok L field f' QLit (pos + zlen (pad_chop L (field c) (atoi_cutoff ds) ralign))
+    end
+  end.
+
+Definition line_guard (fmt : list Z) (cs : callsite) (msg : list Z) (L : Z) (o : oracles) : bool :=
+  ralign_ok L (dyn_field cs (cstr msg) o) (cstr fmt) QLit 0.
